@@ -49,7 +49,9 @@ func init() {
 			{Name: "CIGAR-SCAN", What: "sam.ParseCigar returns when its scan for the operation letter runs off the end of the text (a length without letter)", Floor: 1, Run: ruleCigarScan},
 			{Name: "NIL-AUX", What: "no method is called on the possibly nil result of AuxFields.Get without a nil test, also through helpers it is handed to", Floor: 1, Run: ruleNilAux},
 			{Name: "IDX-SIGN", What: "in the index packages an index taken from the record (the result of an interface call such as RefID()) is shown non-negative before it is used; and in the exported methods with an ok or error result an index or slice bound computed from an integer parameter is shown in range (ReferenceStats(id), Chunks with a negative start)", Floor: 6, Run: ruleIdxSign},
-			{Name: "REG2BINS-RANGE", What: "csi.reg2bins shows beg ≥ 0, end > beg and end ≤ a power of two before it shifts them into uint32 bin numbers and walks them with an unsigned counter: bounded time for every query (shared with C04)", Floor: 3, Run: ruleReg2binsRange},
+			{Name: "NIL-RECV", What: "every exported reporting method of *sam.Reference tests the receiver for nil before it reads a field: the readers return a nil Reference for a read without one (added for a defect of the unchanged tree, repaired ba68e79: String, Tags, Get)", Floor: 8, Run: ruleNilRecv},
+			{Name: "NAME-STORE", What: "a name-table key (Reference.name, ReadGroup.name, Program.uid) is written only together with the table or into a fresh object: a stale entry makes the next AddReference index the list out of range (shared with C07)", Floor: 6, Run: ruleNameStore},
+			{Name: "REG2BINS-RANGE", What: "csi.reg2bins and internal.OverlappingBinsFor show beg ≥ 0, end beyond beg and end ≤ a power of two before they shift them into uint32 bin numbers and walk them with an unsigned counter: bounded time for every query, also one made from the positions of a decoded record (shared with C04)", Floor: 6, Run: ruleReg2binsRange},
 			{Name: "BIN-WIDTH", What: "every binary.ByteOrder UintN/PutUintN call gets at least N/8 bytes: known slice length, constant difference of bounds, or a helper that returns n bytes or nil whose nil conditions the caller has excluded", Floor: 20, Run: ruleBinWidth},
 			{Name: "DST-FITS", What: "every hex.Decode in the library writes into a destination made for its source, or into a fixed array under a dominating bound on the source's decoded length", Floor: 3, Run: ruleDstFits},
 			{Name: "SHIFT-FITS", What: "in csi.ReadFrom every shift by a computed amount (a function of the decoded depth) is bounded below the width of the shifted type", Floor: 1, Run: ruleShiftFits},
